@@ -3,7 +3,9 @@
 //! reused) and once with reclamation active under an adversarial reclaimer: freed memory is
 //! poisoned (debug builds) or scribbled (optimised builds), pool classes are made tiny so that
 //! exhaustion and arena fallback happen, and the LIFO free list re-issues a slot at once.
+use naijascript::sys::verif_shim::fake_libc::{self, StdinSim};
 use naijascript::sys::verif_shim::mem;
+use naijascript::sys::verif_shim::world::{self, ChildOp};
 use serde_json::{Value, json};
 
 use crate::common::*;
@@ -12,6 +14,57 @@ use crate::prog;
 use crate::rng::{Rng, fnv};
 
 pub struct C02;
+
+/// One execution of the program. `host`: on the simulated host (commands can be run; fixed
+/// scheduling policy, so both executions of a program see the same child behaviour). `stdin`: with a
+/// simulated standard input of known lines delivered in 7-byte pieces.
+pub fn run_one(src: &str, with_frame: bool, host: bool, stdin: bool) -> Outcome {
+    if stdin {
+        crate::c17::drain_carry_over();
+        let mut data = Vec::new();
+        for k in 0..40 {
+            let len = [3usize, 9, 17, 130, 300][k % 5];
+            data.extend(crate::c17::line_bytes(k, len, ["ascii", "two", "mixed"][k % 3]));
+            data.push(b'\n');
+        }
+        fake_libc::install_stdin(StdinSim { data, plan: vec![7], ..StdinSim::default() });
+    }
+    let out = if host {
+        let cfg = world::Config {
+            scripts: vec![vec![
+                ChildOp::DrainStdin,
+                ChildOp::Out { data: b"child says: out \xc3\xa9".to_vec(), chunk: 5 },
+                ChildOp::Err { data: vec![b'e'; 300], chunk: 64 },
+                ChildOp::Exit(3),
+            ]],
+            pipe_cap: 16,
+            epipe_die: true,
+            faults: world::Faults::default(),
+            jitter_seed: 1,
+            keep_log: false,
+        };
+        let shared = std::sync::Arc::new(std::sync::Mutex::new(None));
+        let sh = shared.clone();
+        let src2 = src.to_string();
+        // no decisions: the fixed fallback policy (stay on the task, else lowest id, clock last)
+        let sched = crate::hostsim::SchedMode::Segments { segs: vec![] };
+        let run = crate::hostsim::run_in_sim(cfg, &sched, true, 2_000_000, move || {
+            *sh.lock().unwrap() = Some(pipeline::run_library(&src2, with_frame, None));
+        });
+        if let Some(m) = run.panic {
+            // a panic inside the interpreter while on the simulated host: die like a plain run would
+            eprintln!("{m}");
+            std::process::abort();
+        }
+        shared.lock().unwrap().take().expect("run returned")
+    } else {
+        pipeline::run_library(src, with_frame, None)
+    };
+    if stdin {
+        fake_libc::take_stdin();
+    }
+    out
+}
 
 pub fn pool_counts(case: &Value) -> Option<[u32; 20]> {
     let a = case["pool"].as_array()?;
@@ -99,6 +152,8 @@ impl Engine for C02 {
         let p = g.program();
         let mut k = knobs;
         json!({
+            "host": g.use_run,
+            "stdin": g.use_stdin,
             "prog": prog::block_to_json(&p),
             "pool": gen_pool(&mut k),
             "scribble": k.pick(&[0x23u8, 0x7e, 0x00, 0xdd]),
@@ -115,7 +170,10 @@ impl Engine for C02 {
         stage("reference");
         mem::set_scribble(None);
         mem::set_pool_slot_counts(counts);
-        let reference = pipeline::run_library(&src, false, None);
+        let (host, stdin) = (case["host"].as_bool().unwrap_or(false), case["stdin"].as_bool().unwrap_or(false));
+        res.count("programs_running_commands_on_the_simulated_host", u64::from(host));
+        res.count("programs_reading_simulated_stdin", u64::from(stdin));
+        let reference = run_one(&src, false, host, stdin);
         match &reference {
             Outcome::Rejected(m) => {
                 mem::set_pool_slot_counts(None);
@@ -134,7 +192,7 @@ impl Engine for C02 {
         stage("reclaiming");
         mem::reset_counters();
         mem::set_scribble(case["scribble"].as_u64().map(|b| b as u8));
-        let sut = pipeline::run_library(&src, true, None);
+        let sut = run_one(&src, true, host, stdin);
         mem::set_scribble(None);
         mem::set_pool_slot_counts(None);
         let c = mem::counters();
